@@ -84,9 +84,9 @@ type clNode struct {
 	cl    *cluster
 
 	// durable
-	chain  []*clBlock
-	poolSt *leveldbstorage.Storage
-	states map[string]base.State
+	chain   []*clBlock
+	poolSt  *leveldbstorage.Storage
+	states  map[string]base.State
 	opsDone map[string]bool // operations that are in the node's chain
 
 	// volatile, re-created at every boot
@@ -103,7 +103,7 @@ type clNode struct {
 	pps      *isaac.ProposalProcessors
 	sv       *isaac.SuffrageVoting
 	resolver *isaacstates.DefaultBallotStuckResolver
-	known    []base.Ballot   // the ballots this process has seen, each once
+	known    []base.Ballot // the ballots this process has seen, each once
 	knownSet map[string]bool
 
 	// history for the oracles (survives restarts: it is what the world saw)
@@ -509,7 +509,7 @@ func (f *clFS) SetOperation(_ context.Context, _, _ uint64, op base.Operation) e
 
 	return nil
 }
-func (f *clFS) SetOperationsTree(context.Context, fixedtree.Tree) error            { return nil }
+func (f *clFS) SetOperationsTree(context.Context, fixedtree.Tree) error { return nil }
 func (f *clFS) SetState(_ context.Context, _, _ uint64, st base.State) error {
 	f.states[st.Key()] = st
 
